@@ -855,7 +855,7 @@ def cases(rng, tier, seed):
                               'dt': dt, 'dt2': dt2, 'pr': pr, 'exp': [es, et], 'via': via}))
     # --- analyzer xcorr pair fill (xcorr is quadratic in the data, xcorr_norm and corrcoef are scale-free)
     for _ in range(24 * k):
-        nch, n = rng.randint(2, 4), rng.choice([2, 3, 4, 5, 8, rng.randint(2, 24)])
+        nch, n = rng.choice([2, 3, 4, 4, 5, 6]), rng.choice([2, 3, 4, 5, 8, rng.randint(2, 24)])   # >= 4 channels: index orders of triangle fills differ only from 4 on
         dt = dts_r()
         which = rng.choice(['raw', 'norm', 'cc'])
         if dt == 'f8':
@@ -1142,11 +1142,17 @@ def check_case(c, rng=None):
                     want = want / want[N - 1] * cc[i, j]
                 if np.abs(got[i, j] - want).max() > tol:
                     return fail(c, 'value', 'entry (%d,%d) is not the direct cross-correlation sequence' % (i, j))
-        for i in range(nch):
-            for j in range(i + 1, nch):
+        # a below-diagonal entry that is neither form of its own pair takes precedence over the recorded copy finding
+        pairs_ = [(i, j) for i in range(nch) for j in range(i + 1, nch)]
+        pairs_.sort(key=lambda ij: 0 if (np.abs(got[ij[1], ij[0]] - got[ij[0], ij[1]][::-1]).max() > tol and np.abs(got[ij[1], ij[0]] - got[ij[0], ij[1]]).max() > tol) else 1)
+        for i, j in pairs_:
+            if True:
                 if np.abs(got[j, i] - got[i, j][::-1]).max() > tol:
-                    f_ = fail(c, 'pair-fill-not-lag-reversed', 'entry (%d,%d) is not the lag-reversed entry (%d,%d)%s' % (
-                        j, i, i, j, ' (it is a copy)' if np.abs(got[j, i] - got[i, j]).max() <= tol else ''))
+                    if np.abs(got[j, i] - got[i, j]).max() > tol:
+                        # neither the lag-reversed sequence nor the (recorded) un-reversed copy of ITS OWN pair:
+                        # a different violation of the same clause, never covered by the recorded finding
+                        return fail(c, 'pair-fill-wrong-pair', 'entry (%d,%d) holds neither the lag-reversed nor the copied sequence of pair (%d,%d)' % (j, i, i, j))
+                    f_ = fail(c, 'pair-fill-not-lag-reversed', 'entry (%d,%d) is not the lag-reversed entry (%d,%d) (it is a copy)' % (j, i, i, j))
                     f_.key = base + '/pair-fill-not-lag-reversed'     # the recorded finding, whatever the read order
                     f_.replay['key'] = f_.key
                     return f_
